@@ -62,7 +62,7 @@ def mkField (sh : Shadow) (d : Nat) (isNew : Bool) (f : FInfo) (top : Bool) : Fi
   { name := f.name, ptype := f.ptype, depth := d, isNew := isNew,
     defv := if top then f.defv else "", isShadowed := sh d f.name,
     isGet := top && (accessOf f).1, isSet := top && (accessOf f).2,
-    jsonTag := if top then f.jsonTag else "" }
+    jsonTag := f.jsonTag }   -- since cd682d2 also for promoted fields (`st.Tag(i)` in extractStructFields)
 
 def mkEmbed (sh : Shadow) (d : Nat) (n ty : String) (p : Bool) : Field :=
   { name := n, ptype := ty, depth := d, isPtr := p, isEmbeded := true, isShadowed := sh d n }
